@@ -404,18 +404,14 @@ def _n_in_data(c):
     return n if c.get("mask") is None else int(np.sum(c["mask"]))
 
 
-def pred_at_most_three_points(c):
-    return int(np.prod(c["shape"])) <= 3
-
-
-def pred_three_points_in_data(c):
-    return int(np.prod(c["shape"])) > 3 and _n_in_data(c) == 3
+def pred_single_point(c):
+    return int(np.prod(c["shape"])) == 1
 
 
 def pred_column_map(c):
     dy, dx = steps_units(c)
     oneD = G.view(c)[0]
-    return oneD and dx == 0 and int(np.prod(c["shape"])) > 3
+    return oneD and dx == 0 and int(np.prod(c["shape"])) > 1
 
 
 def pred_multiword_name(c):
@@ -440,7 +436,7 @@ def pred_nan_or_bool_property(c):
 
 
 PREDICATES = {"unused_phase": pred_unused_phase, "extra_prop_name": pred_extra_prop_name,
-              "nan_or_bool_property": pred_nan_or_bool_property, "at_most_three_points": pred_at_most_three_points, "three_points_in_data": pred_three_points_in_data,
+              "nan_or_bool_property": pred_nan_or_bool_property, "single_point": pred_single_point,
               "column_map": pred_column_map, "multiword_name": pred_multiword_name}
 
 
@@ -541,15 +537,13 @@ def generate(ctx):
             kind = ["random", "box", "random"][rep % 3]
             if kind == "random":
                 m = rng.random(n) < 0.7
-                if m.sum() < 4:
-                    m[:4] = True
+                if m.sum() < 2:
+                    m[:2] = True
             else:
                 mm = np.zeros(shape, bool)
                 r0, c0 = int(rng.integers(0, shape[0] - 1)), int(rng.integers(0, shape[1] - 1))
                 mm[r0:r0 + int(rng.integers(2, shape[0] - r0 + 1)), c0:c0 + int(rng.integers(2, shape[1] - c0 + 1))] = True
                 m = mm.ravel()
-            if m.sum() == 3:
-                m[:] = True
             k = int(rng.choice([1, 2]))
             c = G.grid_case(rng, shape, nphases=int(rng.integers(1, 4)), not_indexed=float(rng.choice([0, 0.2])),
                             mask=m, k=k, props=rand_props(rng, k), with_structure=False)
@@ -579,15 +573,19 @@ def generate(ctx):
             n = int(rng.integers(4, 9))
             c = G.grid_case(rng, [n, 1] if rep % 2 else [n], axis="y", nphases=1, with_structure=False)
             yield from emit("known/column_map", c)
-        for shape in ([1], [2], [3], [1, 1], [1, 2], [3, 1]):
+        # tiny maps: one point (known: crash), two or three points, three points of a larger map in the data
+        for shape in ([1], [1, 1]):
             c = G.grid_case(rng, shape, nphases=1, with_structure=False)
-            yield from emit("known/at_most_three_points", c)
+            yield from emit("known/single_point", c)
+        for shape in ([2], [3], [1, 2], [1, 3], [2, 1]):
+            c = G.grid_case(rng, shape, nphases=1, with_structure=False, props=rand_props(rng, 1))
+            yield from emit("tiny/known_column_map" if shape == [2, 1] else "tiny/two_or_three_points", c)
         for rep in range(2):
             shape = [3, 3]
             m = np.zeros(9, bool)
             m[rng.permutation(9)[:3]] = True
-            c = G.grid_case(rng, shape, nphases=1, mask=m, with_structure=False)
-            yield from emit("known/three_points_in_data", c)
+            c = G.grid_case(rng, shape, nphases=1, mask=m, with_structure=False, props=rand_props(rng, 1))
+            yield from emit("tiny/three_points_in_data", c)
         # multi-word phase names (known: truncated to the last word)
         for rep in range(2 if quick else 4):
             c = G.grid_case(rng, [3, 4], nphases=2, with_structure=False)
